@@ -374,7 +374,7 @@ def run(ctx):
         'ShaderStages values are unions of VERTEX|FRAGMENT|COMPUTE (bits < 8)',
     ]
     ctx.bounds = {'helpers': '2 void + 2 value-returning (quick), 3+3 (thorough)', 'entries': '2 (quick) / 3 (thorough)',
-                  'globals': len(GLOBALS), 'nesting contexts': CONTEXTS, 'three-entry family': 'stages of 3 entry points symbolic (all 27 sequences), each calling a shared void / value helper or not', 'multi-use family': '5 globals (3 bindings, a private variable, the push constant); 5 / 3 / 2 references per function, each symbolic over the globals (one function per run)',
+                  'globals': len(GLOBALS), 'nesting contexts': CONTEXTS, 'three-entry family': 'stages of 3 entry points symbolic (all 27 sequences), each calling a shared void / value helper or not', 'multi-use family': '5 globals (3 bindings, a private variable, the push constant); helper: 6 references to one global then 2 symbolic ones; entries: 3 / 2 references, each symbolic over the globals (one function per run)',
                   'symbolic slots per run': '3-4 (quick), 5-6 (thorough)'}
     nh = 2 if quick else 3
     ne = 2 if quick else 3
@@ -551,7 +551,8 @@ MU_GLOBALS = [('a', '@group(0) @binding(0) var<uniform> a: vec4<f32>;', 'let t{n
               ('c', '@group(0) @binding(2) var<storage, read_write> c: array<u32, 4>;', 'c[{n}] = c[{n}] + 1u;'),
               ('p', 'var<private> p: f32;', 'p = p + 1.0;'),                       # a module-scope variable that is not a resource
               ('pc', 'var<push_constant> pc: vec4<f32>;', 'let t{n} = pc.x;')]
-MU_FUNCS = [('helper', None, 5), ('e0', 1, 3), ('e1', 2, 2)]          # name, stage, number of use sites; e0 calls helper, e1 does not
+MU_FUNCS = [('helper', None, 8), ('e0', 1, 3), ('e1', 2, 2)]          # name, stage, number of use sites; e0 calls helper, e1 does not
+MU_FIXED_PREFIX = {'helper': 6}        # the first 6 references of helper are to `a` (more references than the module has globals); the rest symbolic
 
 
 def mu_render(choice=None):
@@ -592,7 +593,7 @@ def multi_use(ctx, seen):
             if len(refs) != k:
                 raise Inconclusive(f'multi-use template: {len(refs)} GlobalVariable expressions in {name}, expected {k}')
             for i, e in enumerate(refs):
-                if name == sym_fn:
+                if name == sym_fn and i >= MU_FIXED_PREFIX.get(name, 0):
                     t = z3.BitVec(f'ref_{name}_{i}', 32)
                     e.fields[0] = t
                     terms[(name, i)] = t
@@ -624,12 +625,13 @@ def multi_use(ctx, seen):
             inv = {v: k for k, v in gl_h.items()}
             choice = {k: inv[model_value(m, t)] for k, t in terms.items()}
             wsrc = mu_render(choice)
+            refs_txt = ['a'] * MU_FIXED_PREFIX.get(sym_fn, 0) + [choice[k_] for k_ in sorted(choice)]
             vis = real_visibility(ctx, wsrc)
             exp = {g: model_value(m, want[g]) for g in gl_h if g != 'p'}            # the private variable has no visibility to read back
             if exp.get('pc') == 0:
                 exp['pc'] = STAGE_BIT[1] | STAGE_BIT[2]                             # unused push constant: all entry stages
             rep = {g: vis.get(g) for g in exp} != exp
-            ctx.report(key, f'stage sets {vis} differ from static use {exp} when {sym_fn} references {[choice[(sym_fn, i)] for i in range(len(choice))]}',
+            ctx.report(key, f'stage sets {vis} differ from static use {exp} when {sym_fn} references {refs_txt}',
                        {'wgsl': wsrc, 'options': OPTS}, rep, {'real': vis, 'expected': exp})
         ctx.vacuity_witness('multi-use stage map reachable', res[0][0])
 
